@@ -3,6 +3,7 @@ import Mdpax.GaussSeidel
 import Mdpax.Average
 import Mdpax.Bellman
 import Mdpax.Engine
+import Mdpax.Events
 open Mdpax
 #print axioms contraction
 #print axioms span_contraction
@@ -33,6 +34,8 @@ open Mdpax
 #print axioms telescope
 #print axioms ravel2_inj
 #print axioms ravel2_lt
+#print axioms events_sum_one
+#print axioms events_nonneg
 #print axioms ravel2_surj
 #print axioms ravel3_inj
 #print axioms ravel3_surj
